@@ -93,11 +93,9 @@ func (self *Lexer) skipBlockComment() {
 	self.advance()
 	self.advance()
 
-	for {
-		if self.currentChar == nil || self.nextChar == nil {
-			break
-		}
-		if *self.currentChar == '*' && *self.nextChar == '/' {
+	// an unterminated block comment extends to the end of the input
+	for self.currentChar != nil {
+		if *self.currentChar == '*' && self.nextChar != nil && *self.nextChar == '/' {
 			self.advance()
 			self.advance()
 			break
